@@ -115,6 +115,7 @@ type FnGen struct {
 	qfacts          []QFact
 	sumUnfolded     map[string]bool
 	acquired        map[string]State // monitor owner term -> state right after its mutex was acquired
+	acquiredType    map[string]string // monitor owner term -> its struct type name
 	autoInvs        map[*ssa.BasicBlock][]autoInv
 	loopTypeInvObjs map[*ssa.BasicBlock][]Val
 
@@ -612,6 +613,11 @@ func (g *FnGen) assumeTypeInv(v Val, guard string) {
 	conds := []string{not("(= " + v.T + " nil)")}
 	for _, a := range r.ownAllocs[tn] {
 		conds = append(conds, not("(= "+v.T+" "+a.term+")"))
+	}
+	// an object whose invariant fields this function has written may be between two consistent
+	// states: its invariant is an obligation at the next return / call, never an assumption
+	for _, d := range r.dirty[tn] {
+		conds = append(conds, not("(= "+v.T+" "+d.v.T+")"))
 	}
 	g.assumeTypeInvAt(and(guard, and(conds...)), v, g.st, "typeinv:"+tn)
 }
